@@ -32,8 +32,9 @@ RULE = ("seeded pools of 3-8 distinctly named connected motifs (random connected
         "and interleave motifs; operand kinds float / exact rationals on a 1e6 grid / polynomial symbols; faults: operand "
         "raising at the k-th arithmetic operation, the motif graph's neighbors() raising at the k-th call (lands inside "
         "the structural cache filling), a vertex without its u value; every 5th run: two or three evaluations OVERLAPPING IN TIME on "
-        "the shared evaluator - real threads parked at every operand operation, the interleaving chosen by the seeded scheduler "
-        "(uniform / sticky / mixed), or a nested evaluation started from inside an operand operation; non-trivial = history has >= 2 "
+        "the shared evaluator - real threads parked at every operand operation and, in half of these runs, also at every 1st / 2nd / "
+        "3rd / 7th / 19th executed LINE of library code (sys.settrace in the worker threads), the interleaving chosen by the "
+        "seeded scheduler (uniform / sticky / mixed), or a nested evaluation started from inside an operand operation; non-trivial = history has >= 2 "
         "evaluations of which one revisits a (motif, focal) pair; distinct = distinct execution digests")
 ASSUMPTIONS = ["reference = brute force over all 2^|E| edge subsets, organised as integer counts (pure function of motif and focal)",
                "Exact evaluations establish the polynomial identity with probability >= 1 - deg/1e6 each (Schwartz-Zippel); "
@@ -42,9 +43,13 @@ ASSUMPTIONS = ["reference = brute force over all 2^|E| edge subsets, organised a
 REAL = ["gcmpy.message_passing.equations.automated_equation.AutomatedEquation (shared object, real caches)", "networkx"]
 STUB = ["numeric operands (Exact / Poly / faulting wrappers)", "no RNG is consumed by this code path"]
 
+import os
+import sys
 import threading
 
+import gcmpy as _gcmpy
 
+_LIBDIR = os.path.dirname(os.path.abspath(_gcmpy.__file__)) + os.sep
 _BATONS = {}        # thread ident -> Baton of the worker thread currently registered under it
 
 
@@ -58,6 +63,9 @@ class Baton:
         self.result = None
         self.error = None
         self.ops = 0
+        self.lines = 0
+        self.stride = None      # pre-empt at every stride-th executed library line (None: operand operations only)
+        self.phase = 0
 
 
 class YieldPoint:
@@ -85,20 +93,45 @@ class WorkerStuck(Exception):
     pass
 
 
-def run_interleaved(fns, decide, max_steps=200000, step_timeout=60.0):
+def _line_local(frame, event, arg):
+    if event == "line":
+        b = _BATONS.get(threading.get_ident())
+        if b is not None and b.stride:
+            b.lines += 1
+            if b.lines % b.stride == b.phase:
+                b.back.release()        # parked at an executed line of library code
+                b.go.acquire()
+    return _line_local
+
+
+def _line_global(frame, event, arg):
+    # line events only inside frames of the library under test (operands, networkx, the harness run untraced)
+    if event == "call" and frame.f_code.co_filename.startswith(_LIBDIR):
+        return _line_local
+    return None
+
+
+def run_interleaved(fns, decide, max_steps=200000, step_timeout=60.0, strides=None):
     """fns: list of callables.  Real threads, exactly one running at any time; `decide(k)` (the seeded scheduler)
-    picks which of the k runnable threads gets the next step.  Returns (batons, context switches)."""
+    picks which of the k runnable threads gets the next step.  A step ends at the thread's next pre-emption point:
+    an operand operation (YieldPoint) and, with `strides`, every stride-th executed LINE of library code
+    (sys.settrace in the worker thread).  Returns (batons, context switches)."""
     batons = [Baton() for _ in fns]
     threads = []
-    for b, fn in zip(batons, fns):
+    for k, (b, fn) in enumerate(zip(batons, fns)):
+        if strides:
+            b.stride, b.phase = strides[k % len(strides)]
         def body(b=b, fn=fn):
             _BATONS[threading.get_ident()] = b
             b.go.acquire()
+            if b.stride:
+                sys.settrace(_line_global)
             try:
                 b.result = fn()
             except BaseException as e:     # reported by the caller
                 b.error = e
             finally:
+                sys.settrace(None)
                 b.done = True
                 _BATONS.pop(threading.get_ident(), None)
                 b.back.release()
@@ -234,12 +267,18 @@ def gen_overlap(prng, tier, index):
         ev = {"m": mi, "focal": prng.choice(verts)}
         ev.update(gen_operands(prng, verts, "exact"))
         evals.append(ev)
-    mode = prng.choice(("threads", "threads", "nested"))
+    mode = prng.choice(("threads", "lines", "lines", "nested"))
     sc = {"variant": "faults", "kind": "overlap", "mode": mode, "motifs": motifs, "evals": evals, "faults": [],
           "warm": prng.random() < 0.5, "set_order": prng.choice(("natural", "natural", "reversed", "shuffled")),
           "policy": prng.choice(({}, {"int": "sticky"}, {"int": "mix", "p": 0.3}, {"int": "mix", "p": 0.7}, {"int": "max"}))}
     if mode == "nested":
         sc["at"] = prng.randrange(0, 60)
+    if mode == "lines":
+        # per thread: pre-empt at every stride-th executed library line, starting at a phase
+        sc["strides"] = []
+        for _ in evals:
+            st = prng.choice((1, 1, 2, 3, 7, 19))
+            sc["strides"].append([st, prng.randrange(st)])
     return sc
 
 
@@ -294,7 +333,8 @@ def execute_overlap(sc, ctx):
         start = len(src.log)
         src.begin_op(budget=None)
         try:
-            batons, switches = run_interleaved(fns, lambda k: src.next_int(k, "sched") if k > 1 else 0)
+            batons, switches = run_interleaved(fns, lambda k: src.next_int(k, "sched") if k > 1 else 0,
+                                               strides=[tuple(x) for x in sc["strides"]] if sc["mode"] == "lines" else None)
         except WorkerStuck as e:
             ctx.violate(f"{P}.raised", f"interleaved evaluations on one evaluator: {e}")
             return
@@ -303,12 +343,16 @@ def execute_overlap(sc, ctx):
         ctx.probe("context_switches", switches)
         if switches:
             ctx.fault("interleaved_evaluations")
+        if sc["mode"] == "lines":
+            ctx.probe("line_preemption_points", sum(b.lines for b in batons))
+            if switches:
+                ctx.fault("interleaved_at_lines")
         for b, pr in zip(batons, prepared):
             if b.error is not None:
                 ctx.violate(f"{P}.raised", f"evaluation interleaved with another on the same evaluator raised {describe_exc(b.error)}")
                 return
             results.append((pr, b.result))
-        where = f"interleaved with {len(jobs) - 1} other evaluation(s) on the same evaluator ({switches} context switches at operand operations)"
+        where = f"interleaved with {len(jobs) - 1} other evaluation(s) on the same evaluator ({switches} context switches at operand operations" + (" and executed library lines" if sc["mode"] == "lines" else "") + ")"
     for (m, edges, verts, focal, ev), val in results:
         ctx.check(f"{P}.interleaved")
         ref = reference(edges, focal, ev, verts)
